@@ -602,9 +602,15 @@ func (fr *Frame) moduleCall(st *State, fn *ssa.Function, rt types.Type, args []V
 		if len(args) == 3 && isMod(1) && isMod(2) {
 			return set(F.Add(ld(1), ld(2)))
 		}
-	case "Square", "CyclotomicSquare":
+	case "Square", "CyclotomicSquare", "CyclotomicSquareCompressed":
+		// the compressed squaring of Karabina works on a compressed representation of the same group element
 		if len(args) == 2 && isMod(1) {
 			return set(F.Mul(F.I64(2), ld(1)))
+		}
+	case "DecompressKarabina":
+		// decompression denotes the same group element (defined when the compressed coordinates allow it)
+		if len(args) == 2 && isMod(1) {
+			return set(ld(1))
 		}
 	case "Inverse":
 		if len(args) == 2 && isMod(1) {
